@@ -1,11 +1,28 @@
 package index
 
 import (
+	"fmt"
 	"log"
 	"os"
+	"path/filepath"
+	"strings"
 
 	"github.com/spq/pkappa2/internal/tools"
 )
+
+// mergedFilename derives the name of a merged index from its newest input, so
+// that it sorts directly behind the merged indexes and before any newer index:
+// index files are stacked by name when they are loaded the next time.
+func mergedFilename(indexDir string, indexes []*Reader, n int) string {
+	if len(indexes) == 0 {
+		return tools.MakeFilename(indexDir, "idx")
+	}
+	base := strings.TrimSuffix(filepath.Base(indexes[len(indexes)-1].filename), ".idx")
+	if n == 0 {
+		return filepath.Join(indexDir, base+".m.idx")
+	}
+	return filepath.Join(indexDir, fmt.Sprintf("%s.m%d.idx", base, n))
+}
 
 func Merge(indexDir string, indexes []*Reader) ([]*Reader, error) {
 	ws := []*Writer{}
@@ -16,7 +33,7 @@ func Merge(indexDir string, indexes []*Reader) ([]*Reader, error) {
 			idx := indexes[idxIdx]
 			for wIdx := 0; wIdx <= len(ws); wIdx++ {
 				if wIdx == len(ws) {
-					w, err := NewWriter(tools.MakeFilename(indexDir, "idx"))
+					w, err := NewWriter(mergedFilename(indexDir, indexes, wIdx))
 					if err != nil {
 						return err
 					}
